@@ -15,12 +15,12 @@ import (
 
 func init() {
 	register(&propDef{
-		id: "C05",
+		id:      "C05",
 		explain: "Structural necessary condition of 'setters cannot inject header lines': every value that can be stored into the serialised storage of RequestHeader / ResponseHeader (dedicated byte-slice fields, header field keys and values, cookies, trailers) is clean for CR/LF on every way it can be produced: a constant, a numeric/date formatter result, the result of (or a buffer passed in place through) the CR/LF neutraliser or a helper that applies it on every path, content of another checked storage field, or - for unexported helpers - clean at every call site. Exported parameters are the taint sources. The neutraliser's shape is re-checked on every run. Parse paths (bytes taken from the wire by the header scanner) are outside this rule. Not decided: that a peer sees exactly one message (spaces in method/URI, ':' in names, non-ASCII), documented caller-canonical keys of SetCanonical.",
 		run:     func(p *Prog, r *Report) { runTaintProp(p, r, "C05") },
 	})
 	register(&propDef{
-		id: "C06",
+		id:      "C06",
 		explain: "Structural necessary condition of 'cookie setters cannot inject attributes or header lines': every value stored into the byte-slice fields of Cookie, and every key/value stored into the request cookie list of RequestHeader, is clean for both CR/LF and ';' on every way it can be produced (constants, formatter results, results of the two neutralisers or of helpers applying them on every path, clean arguments at every call site of unexported helpers); a value that passes a decoding/normalising step after the neutraliser is not clean. Exported parameters are the sources. Not decided: round-trip equality, attribute combinations, expiry precision; the parse side (wire bytes) is outside this rule.",
 		run:     func(p *Prog, r *Report) { runTaintProp(p, r, "C06") },
 	})
@@ -199,6 +199,79 @@ func runTaintProp(p *Prog, r *Report, prop string) {
 	for k, why := range t.trustedParam {
 		r.Note("E5 trusted parameter %s: %s", k, why)
 	}
+	if prop == "C06" {
+		scannerOutParams(p, r)
+	}
+}
+
+// scannerOutParams (C06.R-out): the cookie scanners hand their result back
+// through pointer parameters that the callers point at *reused* storage (an
+// argsKV slot from allocArg keeps the bytes of its previous use). A pair is
+// reported by returning true, so on every path to a true return each
+// out-parameter must have been assigned - otherwise the caller sees the key or
+// value of an earlier cookie under the new one.
+func scannerOutParams(p *Prog, r *Report) {
+	n := 0
+	for _, fn := range p.funcsIn("") {
+		if recvTypeName(fn) != "cookieScanner" || fn.Signature.Results().Len() != 1 || !isBool(fn.Signature.Results().At(0).Type()) {
+			continue
+		}
+		var outs []*ssa.Parameter
+		for _, prm := range fn.Params[1:] {
+			if pt, ok := prm.Type().Underlying().(*types.Pointer); ok {
+				if _, isSlice := pt.Elem().Underlying().(*types.Slice); isSlice {
+					outs = append(outs, prm)
+				}
+			}
+		}
+		if len(outs) == 0 {
+			continue
+		}
+		n++
+		bad, nret := 0, 0
+		var wit []string
+		detail := ""
+		x := NewExplorer(p, fn, Hooks{
+			Instr: func(x *Explorer, st *State, in ssa.Instruction) {
+				if s, ok := in.(*ssa.Store); ok {
+					for i, o := range outs {
+						if s.Addr == ssa.Value(o) {
+							st.Set(1 << uint(i))
+						}
+					}
+				}
+			},
+			Exit: func(x *Explorer, st *State, ret *ssa.Return, pan *ssa.Panic) {
+				if ret == nil {
+					return
+				}
+				rr := returnResults(ret)
+				if len(rr) != 1 || x.Eval(st, rr[0]) == False {
+					return
+				}
+				nret++
+				for i, o := range outs {
+					if !st.Has(1 << uint(i)) {
+						bad++
+						if wit == nil {
+							wit = x.Path(st)
+							detail = "*" + o.Name() + " is not assigned on this path"
+						}
+					}
+				}
+			},
+		})
+		x.TrackAll = true
+		x.Filter = noIntFilter
+		x.Run(nil)
+		if x.Aborted {
+			r.Undecided("R-out", funcName(fn), "state budget exhausted")
+			continue
+		}
+		r.Check("R-out", fmt.Sprintf("%s: every out-parameter is assigned on every path that reports a pair", funcName(fn)), bad == 0 && nret > 0, p.Pos(fn.Pos()),
+			fmt.Sprintf("%s (%d unassigned arrivals at %d explored reporting returns): the caller's reused slot keeps the bytes of an earlier cookie, which the server then sees under this one", detail, bad, nret), wit...)
+	}
+	r.Floor("R-out", "cookie scanner methods with slice out-parameters", n, 2)
 }
 
 // wirePath: functions that fill header storage from bytes read off the wire
